@@ -64,6 +64,9 @@ pub enum SOp {
     Withdraw { d: usize, v: String },
     SetWithdraw { d: usize, to: String },
     Slash { v: String, p: String },
+    /// the staking module is set up again with another unbonding time (same denomination, same rate): pending
+    /// unbondings keep their payout times, later ones use the new period
+    Reconfigure { unbonding: u64 },
     /// advance block time by `nanos`; the twin instance advances in `pieces` (nanoseconds, summing to `nanos`)
     /// and lets an unrelated delegator trigger reward updates in between
     Advance {
@@ -106,6 +109,7 @@ pub struct Inst {
     pub noise: String,           // unrelated delegator used only by the split-time twin
     pub validators: Vec<String>,
     pub denom: String,
+    pub apr: String,
 }
 
 pub fn validators(p: &Params) -> Vec<String> {
@@ -162,7 +166,7 @@ impl Inst {
         }
         let noise = "noise-delegator".into_addr().to_string();
         app.sudo(SudoMsg::Bank(BankSudo::Mint { to_address: noise.clone(), amount: vec![coin(START_BALANCE, p.denom.clone())] })).unwrap();
-        Inst { app, delegators, operator, noise, validators: validators(p), denom: p.denom.clone() }
+        Inst { app, delegators, operator, noise, validators: validators(p), denom: p.denom.clone(), apr: p.apr.clone() }
     }
 
     fn exec_as(&mut self, d: usize, msg: CosmosMsg) -> Result<(), String> {
@@ -190,6 +194,10 @@ impl Inst {
             }
             SOp::Withdraw { d, v } => self.exec_as(*d, DistributionMsg::WithdrawDelegatorReward { validator: v.clone() }.into()),
             SOp::SetWithdraw { d, to } => self.exec_as(*d, DistributionMsg::SetWithdrawAddress { address: to.clone() }.into()),
+            SOp::Reconfigure { unbonding } => {
+                let info = StakingInfo { bonded_denom: self.denom.clone(), unbonding_time: *unbonding, apr: Decimal::from_str(&self.apr).unwrap() };
+                self.app.init_modules(|router, _api, storage| router.staking.setup(storage, info).map_err(|e| format!("{:#}", e)))
+            }
             SOp::Slash { v, p } => match Decimal::from_str(p) {
                 Ok(pd) => self.app.sudo(SudoMsg::Staking(StakingSudo::Slash { validator: v.clone(), percentage: pd })).map(|_| ()).map_err(|e| format!("{:#}", e)),
                 Err(e) => Err(format!("harness: bad decimal {}", e)),
@@ -561,6 +569,10 @@ impl Run {
                 }
                 ("set_withdraw_address", if ok { Expect::MustOk } else { Expect::MustErr })
             }
+            SOp::Reconfigure { unbonding } => {
+                m.unbonding = *unbonding;
+                ("reconfigure", Expect::MustOk)
+            }
             SOp::Slash { v, p } => {
                 let pq = Q::from_decimal_str(p).unwrap();
                 let ok = known(v) && pq <= Q::int(1);
@@ -607,6 +619,13 @@ impl Run {
         };
 
         // ---- execute ----------------------------------------------------------------------------
+        if matches!(op, SOp::Reconfigure { .. }) && self.twin.is_some() {
+            // with another unbonding time the queue of pending unbondings is no longer ordered by payout time, and the
+            // simulator pays from its front only (C14 speaks of parameters fixed at setup): the split-time twin, whose
+            // unrelated delegator adds entries of its own, is not comparable from here on
+            self.twin = None;
+            rep.bump("stk/twin_dropped_after_reconfiguration");
+        }
         let res = self.inst.exec(op, false);
         let twin_res = self.twin.as_mut().map(|t| t.exec(op, true));
         rep.evaluations += 1;
@@ -1212,6 +1231,22 @@ pub fn run_random(rng: &mut Rng, len: usize, mix: Mix, with_twin: bool, rep: &mu
             };
             rep.bump("stk/leave_and_return_motifs");
             vec![SOp::Advance { nanos: secs * NANOS, pieces: vec![secs * NANOS], set: false }, leave, SOp::Delegate { d, v: v.clone(), amount: rng.range_u128(1, 5000), denom }, SOp::Withdraw { d, v }]
+        } else if !existing.is_empty() && rng.chance(1, 30) {
+            // the unbonding time is changed while an unbonding is pending, then the validator is slashed
+            let (d, v) = rng.pick(&existing).clone();
+            let shown = run.model.shown(d, &v);
+            let denom = run.model.denom.clone();
+            let new_period = *rng.pick(&[0u64, 1, 5, 60, 3600, 86_400]);
+            rep.bump("stk/reconfigure_motifs");
+            vec![
+                SOp::Undelegate { d, v: v.clone(), amount: (shown / 2).max(1), denom },
+                SOp::Reconfigure { unbonding: new_period },
+                SOp::Slash { v: v.clone(), p: rng.pick(&["0.5", "0.1", "1", "0.333333333333333333"]).to_string() },
+                SOp::Advance { nanos: 3 * NANOS, pieces: vec![3 * NANOS], set: false },
+                SOp::Advance { nanos: 2 * 86_400 * NANOS, pieces: vec![86_400 * NANOS, 86_400 * NANOS], set: false },
+            ]
+        } else if rng.chance(1, 60) {
+            vec![SOp::Reconfigure { unbonding: *rng.pick(&[0u64, 1, 60, 3600]) }]
         } else {
             vec![gen_op(rng, &run.model, mix)]
         };
@@ -1237,6 +1272,7 @@ fn finish(run: &Run, ops: &[SOp], rep: &mut Report) {
             SOp::Redelegate { .. } => "R",
             SOp::Withdraw { .. } => "W",
             SOp::SetWithdraw { .. } => "A",
+            SOp::Reconfigure { .. } => "C",
             SOp::Slash { .. } => "S",
             SOp::Advance { .. } => "T",
         })
